@@ -268,8 +268,49 @@ pub open spec fn test_truth<'a, T: Queryable>(t: Test, cur: &'a T, root: &'a T) 
 // are abstract here and *defined* (numbers mathematically, strings by scalar value, structural
 // equality) in the Kani harness / executable mirror that checks the real `eq` / `lt` against them.
 // ---------------------------------------------------------------------------------------------
+// kernels (abstract): the exact mathematical order of two JSON numbers, None if either is not a number
+// (decided for the real code by the Kani harnesses); Unicode-scalar order of strings (std); equality of
+// two values that are neither numbers nor containers as the data type's PartialEq sees it
+pub uninterp spec fn num_cmp<T: Queryable>(a: T, b: T) -> Option<Ordering>;
+pub uninterp spec fn str_lt(a: Seq<char>, b: Seq<char>) -> bool;
+pub uninterp spec fn scalar_eq<T: Queryable>(a: T, b: T) -> bool;
+
+// `==`: numbers by value; arrays element-wise; objects member-wise (same number of members, every member of the
+// left has an equal member of the same name on the right); anything else by scalar_eq.
+// json_eq is DEFINED by its one-level unfolding (axiom_json_eq_def): the unfolding recurses only into strictly
+// smaller values (children_are_smaller), so exactly one relation satisfies it.  (A fuel-indexed recursive definition
+// was tried first; its quantified recursive calls did not unfold reliably.)
 pub uninterp spec fn json_eq<T: Queryable>(a: T, b: T) -> bool;
-pub uninterp spec fn json_lt<T: Queryable>(a: T, b: T) -> bool;
+pub open spec fn member_match<T: Queryable>(l: Seq<(&String, &T)>, r: Seq<(&String, &T)>, i: int) -> bool {
+    exists|j: int| 0 <= j < r.len() && l[i].0@ == (#[trigger] r[j]).0@ && json_eq(*l[i].1, *r[j].1)
+}
+pub open spec fn json_eq_unfolded<T: Queryable>(a: T, b: T) -> bool {
+    match num_cmp(a, b) {
+        Some(o) => o == Ordering::Equal,
+        None => match (a.as_array_spec(), b.as_array_spec()) {
+            (Some(x), Some(y)) => x@.len() == y@.len() && forall|i: int| 0 <= i < x@.len() ==> json_eq(#[trigger] x@[i], y@[i]),
+            (None, None) => match (a.as_object_spec(), b.as_object_spec()) {
+                (Some(l), Some(r)) => l.len() == r.len() && forall|i: int| 0 <= i < l.len() ==> #[trigger] member_match(l, r, i),
+                (None, None) => scalar_eq(a, b),
+                _ => false,
+            },
+            _ => false,
+        },
+    }
+}
+pub axiom fn axiom_json_eq_def<T: Queryable>(a: T, b: T)
+    ensures json_eq(a, b) == json_eq_unfolded(a, b);
+// `==` is symmetric (RFC 9535 2.3.5.2.2).  A property of the relation defined above, given symmetric kernels and
+// objects without duplicate member names (JSON objects seen through a faithful Queryable); assumed, not proved.
+pub axiom fn axiom_json_eq_symmetric<T: Queryable>(a: T, b: T)
+    ensures json_eq(a, b) == json_eq(b, a);
+// `<`: only between two numbers or between two strings
+pub open spec fn json_lt<T: Queryable>(a: T, b: T) -> bool {
+    match num_cmp(a, b) {
+        Some(o) => o == Ordering::Less,
+        None => match (a.as_str_spec(), b.as_str_spec()) { (Some(x), Some(y)) => str_lt(x, y), _ => false },
+    }
+}
 pub open spec fn val_eq<T: Queryable>(a: Option<T>, b: Option<T>) -> bool {
     match (a, b) { (None, None) => true, (Some(x), Some(y)) => json_eq(x, y), _ => false }
 }
